@@ -291,8 +291,9 @@ def run(ctx):
                     form = describe(s, {"copy": {"l": d0[2].dst["l"], "p": []}}) if not s.local_name(d0[2].dst["l"]) else "%s(%s)" % (d0[2].name.split("::")[-1], ",".join(describe(s, a) for a in d0[2].args[:2]))
             uses_len = any(c2.matches(r"char::methods::<impl char>::len_utf8$|::len_utf8$") for b2 in [s] + facts.nested(s) for c2 in b2.calls)
             boundary_api = re.search(r"(ceil_char_boundary|floor_char_boundary)\(", form) is not None
-            affine = re.match(r"^(Add\(subject_pos,.*\)(\.0)?)$", form) is not None and uses_len and "nth(" not in form and "char_indices" not in form
-            if not (affine or boundary_api or form == "subject_pos"):
+            SUBJ = s.locals[3].get("name") or "subject_pos"   # the scan's third parameter (directive, text, subject position, regex), by role
+            affine = re.match(r"^(Add\(%s,.*\)(\.0)?)$" % re.escape(SUBJ), form) is not None and uses_len and "nth(" not in form and "char_indices" not in form
+            if not (affine or boundary_api or form == SUBJ):
                 good = False
                 why.append("end = %s is not `subject_pos + len_utf8(first char)`" % form)
             ctx.check(good, "C14-R5", "char-boundary", "the slice end is the byte offset just after the statement's first character (%s)" % ("; ".join(why) or form), c.where())
